@@ -888,6 +888,11 @@ async def run_case(world, ops=None, chooser=None, plan=None, probe=True):
                         await asyncio.sleep(0)        # the wrap_future hop: the asyncio future is done now
                     quiescent = False
                 check_dead(False)
+            elif op[0] == 'turn':
+                await asyncio.sleep(0)          # exactly one iteration of the event loop
+                link.pump()
+                quiescent = False
+                check_dead(True)
             else:
                 await settle()
                 link.pump()
@@ -909,12 +914,17 @@ async def run_case(world, ops=None, chooser=None, plan=None, probe=True):
                 x = chooser.random()
                 if live and x < 0.30:
                     await do(('complete', chooser.choice(live)))
-                elif x < 0.55 and not quiescent:
+                elif x < 0.45 and not quiescent:
                     await do(('settle',))
+                elif x < 0.60 and not quiescent:
+                    await do(('turn',))
                 else:
                     await do(todo.pop(0))
-                    if chooser.random() < 0.55:
+                    y = chooser.random()
+                    if y < 0.45:
                         await do(('settle',))
+                    elif y < 0.65:
+                        await do(('turn',))
             for _ in range(40):
                 if state['dead']:
                     break
@@ -1088,6 +1098,8 @@ def c_case(fixed, world, res, granted_users):
             pi += 1
         elif op[0] == 'complete':
             ops.append('OComplete %d' % op[1])
+        elif op[0] == 'turn':
+            ops.append('OTurn')
         else:
             ops.append('OSettle')
     auth_replies = [r for r in res.replies if r[0] != 'V']
